@@ -23,7 +23,7 @@
 //	EOF
 //	cp /verif/harness/vectors/numbers/main.go gen/main.go
 //	go build -o gen/gen ./gen && ./gen/gen -out /tmp/numbers/out
-//	sh /tmp/numbers/out/run.sh        # needs /verif/coq/{Base,Model}/*.vo compiled
+//	sh /tmp/numbers/out/run.sh        # needs /verif/coq/{Base,Model}/*.vo compiled; JVROOT=<dir> overrides /verif/coq
 package main
 
 import (
@@ -263,6 +263,28 @@ func startWorker() *worker {
 	return w
 }
 
+// one request/response round trip; ok = false when the watchdog fired (worker killed)
+func (w *worker) ask(c *fnCase, limit time.Duration) (ok bool) {
+	fmt.Fprintln(w.in, c.request())
+	w.in.Flush()
+	select {
+	case line, alive := <-w.lines:
+		if !alive {
+			panic("worker died")
+		}
+		f := strings.Fields(line)
+		c.kind, _ = strconv.Atoi(f[0])
+		c.payload = unhex(f[1][1:])
+		return true
+	case <-time.After(limit):
+		w.cmd.Process.Kill()
+		w.cmd.Wait()
+		return false
+	}
+}
+
+// A case is recorded as a hang only when it exceeds the 2 s watchdog and, re-run alone in a
+// fresh worker, a 6 s watchdog as well (a loaded machine can starve a worker for a while).
 func runFnCases(cases []*fnCase) {
 	ch := make(chan *fnCase, len(cases))
 	for _, c := range cases {
@@ -270,7 +292,7 @@ func runFnCases(cases []*fnCase) {
 	}
 	close(ch)
 	var wg sync.WaitGroup
-	for i := 0; i < 16; i++ {
+	for i := 0; i < 8; i++ {
 		wg.Add(1)
 		go func() {
 			defer wg.Done()
@@ -279,22 +301,15 @@ func runFnCases(cases []*fnCase) {
 				if w == nil {
 					w = startWorker()
 				}
-				fmt.Fprintln(w.in, c.request())
-				w.in.Flush()
-				select {
-				case line, ok := <-w.lines:
-					if !ok {
-						panic("worker died")
-					}
-					f := strings.Fields(line)
-					c.kind, _ = strconv.Atoi(f[0])
-					c.payload = unhex(f[1][1:])
-				case <-time.After(2 * time.Second):
-					c.kind, c.payload = 3, ""
-					w.cmd.Process.Kill()
-					w.cmd.Wait()
-					w = nil
+				if w.ask(c, 2*time.Second) {
+					continue
 				}
+				w = startWorker()
+				if w.ask(c, 6*time.Second) {
+					continue
+				}
+				w = nil
+				c.kind, c.payload = 3, ""
 			}
 			if w != nil {
 				w.cmd.Process.Kill()
@@ -403,7 +418,7 @@ Definition check_pow10 (c : Z * Z * Z) : bool :=
 
 (* strconv.FormatFloat(x, 'f', dp, 64) as used by makeNumberString *)
 Definition check_fixed (c : Z * Z * string) : bool :=
-  let '(x, dp, h) := c in seqb (format_float_fixed (fb x) dp) (unhex h).
+  let '(x, dp, h) := c in seqb (format_float_fixed (fabs (fb x)) dp) (unhex h).
 `
 
 const preludeTail = `
@@ -995,9 +1010,9 @@ func main() {
 		}
 		var sh strings.Builder
 		sh.WriteString("#!/bin/sh\n# compiles the prelude and every shard; prints FAIL <shard> for each shard with a non-empty `bad`\n")
-		sh.WriteString("cd \"$(dirname \"$0\")\" || exit 1\n")
-		sh.WriteString("timeout 600 coqc -Q /verif/coq JV -Q . NV Prelude.v || { echo 'FAIL Prelude'; exit 1; }\n")
-		sh.WriteString("ls S_*.v | xargs -P 16 -I{} sh -c 'timeout 3000 coqc -Q /verif/coq JV -Q . NV {} > {}.log 2>&1 || echo FAIL {}'\n")
+		sh.WriteString("cd \"$(dirname \"$0\")\" || exit 1\nJVROOT=${JVROOT:-/verif/coq}; export JVROOT\n")
+		sh.WriteString("timeout 600 coqc -Q $JVROOT JV -Q . NV Prelude.v || { echo 'FAIL Prelude'; exit 1; }\n")
+		sh.WriteString("ls S_*.v | xargs -P 16 -I{} sh -c 'timeout 3000 coqc -Q $JVROOT JV -Q . NV {} > {}.log 2>&1 || echo FAIL {}'\n")
 		sh.WriteString("echo \"shards: $(ls S_*.v | wc -l)  passed: $(ls S_*.vo 2>/dev/null | wc -l)\"\n")
 		if err := os.WriteFile(filepath.Join(outDir, "run.sh"), []byte(sh.String()), 0o755); err != nil {
 			panic(err)
